@@ -100,7 +100,7 @@ def run(rep, rng, tier, replay=None):
         try:
             return harness("history", payload, timeout=900, mem_kb=64 * 1024 * 1024)["results"]
         except CheckError as e:
-            if any(w in str(e) for w in ("memory allocation", "failed to spawn thread", "Resource temporarily unavailable", "os error 11")):
+            if any(w in str(e) for w in ("memory allocation", "failed to spawn thread", "Resource temporarily unavailable", "os error 11", "exited 75")):
                 rep.cov.setdefault("concurrent_runs_skipped", []).append(str(e)[:200])
                 return [dict(skipped=True) for _ in payload["cases"]]
             raise
